@@ -225,21 +225,72 @@ func c14Schedule(r *lib.Rng, writes []int, p *c14Plan) []c14Sess {
 	if nFlush > 0 {
 		p.tag("flush:some")
 	}
-	if len(splitAfter) > 0 {
-		p.tag(fmt.Sprintf("sessions:%d", len(splitAfter)+1))
-	} else {
-		p.tag("sessions:1")
-	}
 	var sess []c14Sess
 	cur := c14Sess{}
-	if r.Chance(1, 8) {
-		cur.Evs = append(cur.Evs, c14Ev{F: true}) // flush before anything was written
-		p.tag("flush:first")
-	}
 	pos := 0
 	total := 0
 	for _, w := range writes {
 		total += w
+	}
+	// die closes the current session at the present position: its final save is the resume
+	// point of the next one; what the dying process still does to the overlay file is drawn here
+	die := func() {
+		switch r.Intn(5) {
+		case 0: // clean: nothing after the save
+			p.tag("stale:none")
+		case 1, 2: // the writer went on for a while
+			cur.ContBytes = []int{1, 100, ovThr + 5, ovBuf, ovBuf + 1, 2*ovBuf + 100}[r.Intn(6)]
+			if cur.ContBytes > total-pos {
+				cur.ContBytes = total - pos
+			}
+			cur.ContChunk = []int{1, 4096, ovBuf, 3 * ovBuf}[r.Intn(4)]
+			cur.ContEnd = []string{"none", "flush", "finalize"}[r.Intn(3)]
+			p.tag("stale:cont-" + cur.ContEnd)
+		case 3: // went on, then the file was cut back and junk appended
+			cur.ContBytes = r.Range(0, 3000)
+			if cur.ContBytes > total-pos {
+				cur.ContBytes = total - pos
+			}
+			cur.ContChunk = 512
+			cur.ContEnd = "flush"
+			cur.Trunc = true
+			cur.Junk = c14Junk(r)
+			p.tag("stale:cut+junk")
+		default: // junk after whatever is there
+			cur.ContBytes = []int{0, 50, 20000}[r.Intn(3)]
+			if cur.ContBytes > total-pos {
+				cur.ContBytes = total - pos
+			}
+			cur.ContChunk = 4096
+			cur.ContEnd = []string{"none", "flush", "finalize"}[r.Intn(3)]
+			cur.Junk = c14Junk(r)
+			p.tag("stale:cont+junk")
+		}
+		sess = append(sess, cur)
+		cur = c14Sess{}
+	}
+	// idle adds, now and then, a resumed session that consumes nothing: it is opened at the
+	// saved offsets, (flushes,) saves again and dies - the next one resumes from *its* report
+	idle := func() {
+		for k := 0; k < 2 && r.Chance(1, 5); k++ {
+			if r.Chance(1, 3) {
+				cur.Evs = append(cur.Evs, c14Ev{F: true})
+			}
+			p.tag("resume:idle-session")
+			die()
+		}
+	}
+	if r.Chance(1, 8) {
+		cur.Evs = append(cur.Evs, c14Ev{F: true}) // flush before anything was written
+		p.tag("flush:first")
+	}
+	if r.Chance(1, 5) {
+		// the save point lies before the first byte of new content (the patcher asks "should I
+		// save?" before it relays the first operation of a file): read offset 0, overlay offset
+		// just past magic + header
+		p.tag("resume:at-zero")
+		die()
+		idle()
 	}
 	for i, w := range writes {
 		cur.Evs = append(cur.Evs, c14Ev{W: w})
@@ -248,43 +299,22 @@ func c14Schedule(r *lib.Rng, writes []int, p *c14Plan) []c14Sess {
 			cur.Evs = append(cur.Evs, c14Ev{F: true})
 		}
 		if splitAfter[i] > 0 {
-			// how this session dies
-			switch r.Intn(5) {
-			case 0: // clean: nothing after the save
-				p.tag("stale:none")
-			case 1, 2: // the writer went on for a while
-				cur.ContBytes = []int{1, 100, ovThr + 5, ovBuf, ovBuf + 1, 2*ovBuf + 100}[r.Intn(6)]
-				if cur.ContBytes > total-pos {
-					cur.ContBytes = total - pos
-				}
-				cur.ContChunk = []int{1, 4096, ovBuf, 3 * ovBuf}[r.Intn(4)]
-				cur.ContEnd = []string{"none", "flush", "finalize"}[r.Intn(3)]
-				p.tag("stale:cont-" + cur.ContEnd)
-			case 3: // went on, then the file was cut back and junk appended
-				cur.ContBytes = r.Range(0, 3000)
-				if cur.ContBytes > total-pos {
-					cur.ContBytes = total - pos
-				}
-				cur.ContChunk = 512
-				cur.ContEnd = "flush"
-				cur.Trunc = true
-				cur.Junk = c14Junk(r)
-				p.tag("stale:cut+junk")
-			default: // junk after whatever is there
-				cur.ContBytes = []int{0, 50, 20000}[r.Intn(3)]
-				if cur.ContBytes > total-pos {
-					cur.ContBytes = total - pos
-				}
-				cur.ContChunk = 4096
-				cur.ContEnd = []string{"none", "flush", "finalize"}[r.Intn(3)]
-				cur.Junk = c14Junk(r)
-				p.tag("stale:cont+junk")
+			if pos == 0 {
+				p.tag("resume:at-zero") // only empty writes so far
 			}
-			sess = append(sess, cur)
-			cur = c14Sess{}
+			if pos == total {
+				p.tag("resume:at-end") // the last session has nothing left to write
+			}
+			die()
+			idle()
 		}
 	}
 	sess = append(sess, cur)
+	if len(sess) > 4 {
+		p.tag("sessions:5+")
+	} else {
+		p.tag(fmt.Sprintf("sessions:%d", len(sess)))
+	}
 	return sess
 }
 
@@ -1054,7 +1084,7 @@ func c14Emit(c *Ctx, group string, p *c14Plan, o *c14Obs, corpus string) {
 	} else {
 		var keep []string
 		for _, t := range p.Tags {
-			if strings.HasPrefix(t, "len:") || strings.HasPrefix(t, "sessions:") {
+			if strings.HasPrefix(t, "len:") || strings.HasPrefix(t, "sessions:") || strings.HasPrefix(t, "resume:") {
 				keep = append(keep, t)
 			}
 		}
@@ -1162,6 +1192,23 @@ func c14Corpus() []*c14Plan {
 	{
 		old := rep(5, 2*ovBuf+300)
 		out = append(out, mk(old, append([]byte(nil), old...), c14Sess{Evs: []c14Ev{{W: 2*ovBuf + 100}, {W: 200}}}))
+	}
+	// resume points at which nothing has been consumed yet (read offset 0, overlay offset just
+	// past magic + header): the first session is opened and saved before its first write
+	{
+		old := cat(rep(1, 100), rep(2, 9000), rep(3, 100))
+		nw := cat(rep(7, 100), rep(2, 9000), rep(9, 100))
+		out = append(out, mk(old, nw, c14Sess{}, one(len(nw))))
+		// ... with a flush and an empty write before the save, an end marker left behind by the
+		// dead process, idle resumed sessions (no write between resume and save) at offset zero,
+		// in the middle and at the very end
+		out = append(out, mk(old, nw,
+			c14Sess{Evs: []c14Ev{{F: true}, {W: 0}}, ContBytes: 50, ContChunk: 50, ContEnd: "finalize"},
+			c14Sess{},
+			c14Sess{Evs: []c14Ev{{W: 5000}}, Junk: []byte{3, 8, 0xf8, 0x0f}},
+			c14Sess{Evs: []c14Ev{{F: true}}},
+			one(len(nw)-5000),
+			c14Sess{}, c14Sess{}))
 	}
 	return out
 }
